@@ -248,7 +248,7 @@ Apply(f, args, st, d) ==
     \* a Go function of the host that calls its first argument with the remaining ones through an
     \* Invoker (pooled / not pooled): by C14 this is the call itself
     (IF Len(args) >= 1 THEN Apply(args[1], Tail(args), st, d + 1) ELSE ErrR(VErr("WrongNumberOfArgumentsError", ""), st))
-  ELSE IF f.t = "bi" /\ f.n \in {"cbseq", "cbseq2"} THEN
+  ELSE IF f.t = "bi" /\ f.n \in {"cbseq", "cbseq2", "cbseq3"} THEN
     \* host function: one Invoker (acquired once) calls the function once per argument list and collects
     \* the results, a thrown error being collected as a value
     (IF Len(args) = 2 /\ args[2].t = "arr" THEN SeqApply(args[1], args[2].v, 1, st, d, <<>>)
